@@ -4,6 +4,7 @@ from mir import op_place, op_str, place_is_local
 import common as C
 import srv
 import pathsens as PS
+import launder as L
 
 META = {
     'level': 'other',
@@ -18,8 +19,10 @@ META = {
         'every removal anywhere in the loop pairs an index with its own list (R09.2b); a path with no failure and no '
         'stream hand-over removes nothing (R09.2c); (R09.4) the receive path cannot panic on client-controlled lengths '
         '(index-safety rule R01.4 of the receive buffer, same rule code as C01); (R09.5) no unwrap/expect/panic call of '
-        'zlink\'s own code inside the loop. R09.3 (the laundered borrow of the connection list does not outlive the '
-        'iteration) is evaluated by the escape analysis shared with C11. Not decided: relational non-interference for every '
+        'zlink\'s own code inside the loop; (R09.3) escape analysis of the laundered `&mut Vec<Connection>` handed to the select '
+        '(shared engine with C11): nothing that can carry it, by type, is read in a later iteration or returned, and no structural '
+        'mutation of the list (push, swap_remove, ...) happens while such a value is still read afterwards (drops are not reads); '
+        'the vector of unchecked-pinned receive futures is not touched once the select is awaited. Not decided: relational non-interference for every '
         'fault placement and schedule; panics inside user services.'),
     'assumptions': ['a user Service::handle does not panic', 'Listener::accept failing ends the server by design (documented behaviour)'],
 }
@@ -199,6 +202,75 @@ def check_cfg(fx, rep, crate, cfg):
               'the server loop contains panicking calls: %s' % bad)
 
 
+STRUCTURAL = {'push', 'swap_remove', 'remove', 'clear', 'truncate', 'drain', 'insert', 'pop', 'retain', 'retain_mut', 'append', 'split_off', 'reserve',
+              'reserve_exact', 'shrink_to_fit', 'shrink_to', 'dedup', 'dedup_by', 'dedup_by_key', 'resize', 'resize_with', 'extend', 'extend_from_slice', 'set_len',
+              'splice', 'take', 'replace', 'swap'}
+
+
+def check_laundering(fx, rep, crate, cfg):
+    S = srv.Srv(crate)
+    run = S.run
+    if run is None or S.errors:
+        return
+    fk = run.path
+    ss = L.sites(run)
+    n = 0
+    for s in ss:
+        base = L._ref_base(run, s.src_place) if s.src_place else None
+        if base != S.conn_vec:
+            rep.bad('R09.3', '%s|unexpected-laundering-site|%s' % (s.key(), cfg), C.where(run, s.block, s.idx),
+                    'a lifetime-laundering site in Server::run that does not concern the connection list: not covered by a discharge argument')
+            continue
+        n += 1
+        tainted, stores = L.taint(run, s)
+        li, lo = L.liveness_nodrop(run)
+        live = sorted((run.local_name(x) or '_%d' % x) for x in (li[S.loop_head] & tainted)) if S.loop_head is not None else ['?']
+        rep.check(not live and 0 not in tainted and not [1 for _, _, b in stores if L._derives_from_arg(run, b)], 'R09.3', '%s|outlives-iteration|%s' % (s.key(), cfg),
+                  C.where(run, s.block, s.idx),
+                  'nothing derived from the laundered `&mut Vec<Connection>` (the select future, its result, the call) is read in a later iteration or returned (%d locals may carry it)' % len(tainted),
+                  'value(s) %s that may carry the laundered borrow of the connection list are still read in a later loop iteration / returned: the borrow outlives the '
+                  'iteration in which the list may be modified' % live, {'carriers': sorted({run.local_name(x) for x in tainted if run.local_name(x)})})
+        bad = []
+        nmut = 0
+        for b, t in run.iter_terms('call'):
+            if not t['args'] or t['callee'].get('name') not in STRUCTURAL:
+                continue
+            if S.vec_of_operand(run, t['args'][0]) != S.conn_vec:
+                continue
+            nmut += 1
+            still = sorted((run.local_name(x) or '_%d' % x) for x in (lo[b] & tainted))
+            if still:
+                bad.append('%s at %s while %s still read later' % (t['callee']['name'], C.where(run, b), still))
+        for b, i, st in run.iter_assigns():
+            if st['place']['l'] == S.conn_vec and mir.place_is_local(st['place']) and b != 0:
+                sd = run.defs().get(S.conn_vec, [])
+                if len(sd) > 1 and b in run.reachable(S.loop_head):
+                    bad.append('list reassigned at %s' % C.where(run, b, i))
+        rep.check(not bad, 'R09.3', '%s|no-structural-mutation-while-borrowed|%s' % (s.key(), cfg), C.where(run, s.block, s.idx),
+                  'none of the %d structural mutations of the connection list happens while a value that may carry the laundered borrow is still read afterwards' % nmut,
+                  'the connection list is structurally modified while the laundered borrow is still in use: %s' % bad)
+    if n == 0:
+        rep.ok('R09.3', '%s|no-laundering-site|%s' % (fk, cfg), run.where(), 'Server::run contains no lifetime-laundering site', nontrivial=False)
+    # the unchecked pins of the receive futures
+    g = S.get_next_call
+    if g is not None:
+        pu = [(b, t) for b, t in g.iter_terms('call') if t['callee'].get('name') == 'push_unchecked']
+        if pu:
+            # the vector the pinned futures live in
+            vec_l = None
+            for b, t in g.iter_terms('call'):
+                if t['callee'].get('name') == 'into_iter' and t.get('ds') == 'ForLoop':
+                    q = op_place(t['args'][0])
+                    if q:
+                        vec_l = L._ref_base(g, q)
+            awaits = [b for b, t in g.iter_terms('call') if t['callee'].get('name') == 'into_future' and t.get('ds') == 'Await']
+            li, lo = L.liveness_nodrop(g)
+            ok = vec_l is not None and bool(awaits) and all(vec_l not in li[a] for a in awaits)
+            rep.check(ok, 'R09.3', '%s|pinned-futures-not-touched|%s' % (g.path, cfg), C.where(g, pu[0][0]),
+                      'the vector holding the unchecked-pinned receive futures is not used (only dropped) once the select is awaited',
+                      'the vector holding the futures pinned with push_unchecked is used again before/while the select is awaited (futures may move)')
+
+
 def import_receive_index_safety(fx, rep, crate, cfg):
     import c01, engine
     sub = engine.Report('C01', rep.tier)
@@ -221,10 +293,12 @@ def check(fx, rep, tier):
     rep.rule('R09.2', 'every feasible path from a failure arm back to the loop head removes the failing entry from its own list')
     rep.rule('R09.2b', 'every removal / element access pairs an index with the list whose select returned it')
     rep.rule('R09.2c', 'a call answered without failure and without stream hand-over removes nothing')
+    rep.rule('R09.3', 'the laundered `&mut Vec<Connection>` handed to the select does not outlive the iteration, and the list is not structurally modified while it is in use')
     rep.rule('R09.4', 'the receive path cannot index out of bounds on client-controlled lengths (R01.4)')
     rep.rule('R09.5', 'no unwrap / expect / panic call of zlink code inside the server loop')
     for cfg in ['full'] + (['ws'] if tier == 'thorough' else []):
         crate = fx.crate('zlink_core', cfg)
         check_cfg(fx, rep, crate, cfg)
+        check_laundering(fx, rep, crate, cfg)
         import_receive_index_safety(fx, rep, crate, cfg)
     return META
